@@ -53,7 +53,10 @@ func c20Variants(raw string) (d, del, ren string) {
 }
 
 func (g *G) c20Marker() string {
-	switch g.weighted("mk", []wc{{"class", 45}, {"id", 25}, {"role", 25}, {"both", 5}}) {
+	switch g.weighted("mk", []wc{{"class", 42}, {"id", 23}, {"role", 22}, {"both", 5}, {"role+okclass", 8}}) {
+	case "role+okclass":
+		// a role marker next to a class/id that the class/id rule would let pass: the role rule has no such exemption
+		return ` role="` + g.pick("mrole", c20Roles...) + `"` + g.pick("mokcls", ` class="main-nav"`, ` id="modal-content"`, ` class="article-tools"`, ` class="column shadow"`)
 	case "class":
 		m := g.pick("mcls", c20Markers...)
 		switch g.intn(0, 3, "mdec") {
@@ -228,7 +231,12 @@ func genC20(t *rapid.T) *Case {
 		}
 	}
 	var b strings.Builder
-	b.WriteString("<!DOCTYPE html><html><head><title>" + func() string { g.push("ha"); defer g.pop(); return g.words(3) }() + "</title></head><body>\n")
+	titleText := func() string { g.push("ha"); defer g.pop(); return g.words(g.intn(3, 7, "titlew")) }()
+	b.WriteString("<!DOCTYPE html><html><head><title>" + titleText + "</title></head><body>\n")
+	if g.chance(30, "titleheading") {
+		// the headline repeats the title (its words belong to the page's content all the same)
+		blocks = append([]string{"<h1>" + titleText + "</h1>\n"}, blocks...)
+	}
 	wrap := g.pick("wrap", "", "div", "article", "main")
 	if g.chance(40, "chrome-before") {
 		b.WriteString(g.chrome())
